@@ -51,6 +51,9 @@ class SourceFile:
     def asttokens(self):
         return self._source.asttokens()
 
+    def asttext(self):
+        return self._source.asttext()
+
     def _token_to_code(self, tokens):
         return self._format(tokenize.untokenize(tokens)).strip()
 
